@@ -72,10 +72,54 @@ def classify(ctx, c):
     return True
 
 
+def certify(ctx, cases, stats):
+    """T-val: evaluate the certified validator nest_okb on the structure read off every plain program."""
+    import nestview
+    from vlib import cstr, clist
+    seen = set()
+    exprs, who = [], []
+    stats["tval"] = {"certified": 0, "not_a_plain_nest": {}, "validator_rejected": 0}
+    for c in cases:
+        if c.text in seen:
+            continue
+        seen.add(c.text)
+        try:
+            L, shape, views = nestview.extract(c.spec, c.text)
+        except nestview.NotANest as e:
+            k = str(e).split(" ")[0]
+            stats["tval"]["not_a_plain_nest"][k] = stats["tval"]["not_a_plain_nest"].get(k, 0) + 1
+            continue
+        cl = clist(map(cstr, L))
+        csh = clist(clist(clist(map(cstr, rs)) for rs in tm) for tm in shape)
+        cv = clist("(%s, %s)" % (cstr(r), clist(clist("%d%%nat" % i for i in p) for p in per)) for r, per in views)
+        exprs.append("(show_bool (nest_okb %s %s %s))" % (cl, csh, cv))
+        who.append((c, L, shape, views))
+    res = vlib.coq_eval_lines("c01v", ["TV.Model.Show", "TV.Model.Nest"], "", exprs)
+    for (c, L, shape, views), r in zip(who, res):
+        if r == "T":
+            stats["tval"]["certified"] += 1
+            c.certified = True
+        else:
+            stats["tval"]["validator_rejected"] += 1
+            c.certified = False
+            c.nest = {"L": L, "shape": shape, "views": views}
+    return who
+
+
 def run(ctx):
     specs = population(ctx)
     cases, stats = make_cases(ctx, specs, 2 if ctx.quick() else 3)
     execlib.evaluate(cases, "c01")
+    who = certify(ctx, cases, stats)
+    # a program the validator rejects is a broken proof obligation: its executions are the failing-input search
+    rejected = {id(c): c for c, _, _, _ in who if not c.certified}
+    for c in rejected.values():
+        same = [d for d in cases if d.text == c.text]
+        if all(d.result["status"] == "RAN" and d.result["out"] == "OK" for d in same):
+            ctx.violation({"kind": "validator-rejected"},
+                          "nest_okb rejects the loop nest read off the emitted program (theorem C01_nest_okb_sound_partial no longer covers it); "
+                          "executions on %d inputs agree with the oracle" % len(same),
+                          dict(c.replay(), nest=c.nest, theorem="C01_nest_okb_sound_partial"), no_input=True)
     bad = 0
     for c in cases:
         if classify(ctx, c):
@@ -87,7 +131,7 @@ def run(ctx):
         "disagreements_checked": bad,
         "evaluations": len(cases),
         "distinct_nontrivial": distinct,
-        "population": stats,
+        "population": stats, "obligations_note": "programs certified by nest_okb: %d" % stats["tval"]["certified"],
         "rule": "random plain Einsums (1-3/4 ranks, 1-2/3 terms, 1-2/3 factors, take(), scalars, rank-0 tensors, any output sub-list) x random rank orders x "
                 "random loop orders; each distinct emitted program executed in coqc on 2-3 random sparse inputs (extents 1-4, densities 1/.6/.3); "
                 "non-trivial = distinct emitted text",
